@@ -122,11 +122,11 @@ func caseHeader() {
 // ---------------------------------------------------------------- operation sequences
 
 type session struct {
-	path  string
-	meta  string
-	m     *counter.VerifMapped // mapped mode
-	f     *counter.VerifFile   // file mode
-	ctrs  map[string]*counter.Counter
+	path     string
+	meta     string
+	m        *counter.VerifMapped // mapped mode
+	f        *counter.VerifFile   // file mode
+	ctrs     map[string]*counter.Counter
 	names    []string
 	fileMode bool
 	frozen   bool // only operations that do not add records
@@ -536,7 +536,7 @@ func caseSpec() {
 	}
 }
 
-// ---------------------------------------------------------------- racing creation
+// ---------------------------------------------------------------- racing writers
 
 type raceOp struct {
 	add   bool
@@ -546,10 +546,12 @@ type raceOp struct {
 
 // runRace: W writers open the same file (initial contents init, nil = absent)
 // and perform their operations, as managed threads that park before every
-// file-system call.  The plan is a list of (global step, writer) preemptions;
-// otherwise the running writer continues until it is done.  Returns the
-// schedule actually executed, the per-writer results and the file.
-func runRace(meta string, init []byte, progs [][]raceOp, plan [][2]int) (sched []int, res [][]string, final []byte) {
+// file-system call (openMapped's creation sequence; extend and the remap loop
+// inside newCounter).  The plan is a list of (global step, writer)
+// preemptions; otherwise the running writer continues until it is done.
+// Returns the schedule actually executed, allocation limit and file size read
+// from disk after every step, the per-writer results and the file.
+func runRace(meta string, init []byte, progs [][]raceOp, plan [][2]int) (sched []int, trace [][2]uint64, res [][]string, final []byte) {
 	dir, err := os.MkdirTemp(root, "r")
 	must(err)
 	defer os.RemoveAll(dir)
@@ -557,6 +559,7 @@ func runRace(meta string, init []byte, progs [][]raceOp, plan [][2]int) (sched [
 	if init != nil {
 		must(os.WriteFile(path, init, 0666))
 	}
+	hl := len(fmtgen.Header(meta))
 	res = make([][]string, len(progs))
 	s := vsched.New(false)
 	defer vsched.Stop()
@@ -585,7 +588,7 @@ func runRace(meta string, init []byte, progs [][]raceOp, plan [][2]int) (sched [
 		})
 	}
 	cur := 0
-	for g := 0; !s.AllDone() && g < 400; g++ {
+	for g := 0; !s.AllDone() && g < 2000; g++ {
 		for _, p := range plan {
 			if p[0] == g && p[1] < len(progs) && !s.Done(p[1]) {
 				cur = p[1]
@@ -599,19 +602,90 @@ func runRace(meta string, init []byte, progs [][]raceOp, plan [][2]int) (sched [
 			panic("writer panicked: " + info.Panic)
 		}
 		sched = append(sched, cur)
+		var lim, size uint64
+		if b, err := os.ReadFile(path); err == nil {
+			size = uint64(len(b))
+			if len(b) >= hl+4 {
+				lim = uint64(binary.LittleEndian.Uint32(b[hl:]))
+			}
+		}
+		trace = append(trace, [2]uint64{lim, size})
 	}
 	final, err = os.ReadFile(path)
 	must(err)
 	return
 }
 
-// caseRace: one scenario (metadata, initial file state, 2 or 3 writers with
-// short programs on names that stay within the first page) under every plan
-// with at most two preemptions (3 writers: a deterministic sample in the quick
-// tier); one case per distinct schedule.
-func caseRace(idx int) {
+// raceScenario: every plan with at most two preemptions (a deterministic
+// sample when there are more than maxRuns), one case per distinct schedule, at
+// most maxCases cases.
+func raceScenario(kind, meta string, init []byte, progs [][]raceOp, steps, maxRuns, maxCases int) {
+	w := len(progs)
+	var plans [][][2]int
+	plans = append(plans, nil)
+	for g := 1; g < steps; g++ {
+		for t := 0; t < w; t++ {
+			plans = append(plans, [][2]int{{g, t}})
+			for g2 := g + 1; g2 < steps; g2++ {
+				for t2 := 0; t2 < w; t2++ {
+					if t2 != t {
+						plans = append(plans, [][2]int{{g, t}, {g2, t2}})
+					}
+				}
+			}
+		}
+	}
+	seen := map[string]bool{}
+	cases := 0
+	for pi, plan := range plans {
+		if maxRuns < len(plans) && pi > 40 && rnd.Intn(len(plans)) >= maxRuns {
+			continue
+		}
+		sched, trace, res, final := runRace(meta, init, progs, plan)
+		key := fmt.Sprint(sched)
+		if seen[key] {
+			continue
+		}
+		seen[key] = true
+		if cases >= maxCases {
+			break
+		}
+		cases++
+		fields := []string{"race", kind, HS(meta)}
+		if init == nil {
+			fields = append(fields, "absent", "h")
+		} else {
+			fields = append(fields, "present", H(init))
+		}
+		fields = append(fields, I(int64(w)))
+		for i := range progs {
+			fields = append(fields, I(int64(len(progs[i]))))
+			for _, o := range progs[i] {
+				fields = append(fields, B(o.add), HS(o.name), U(o.delta))
+			}
+		}
+		fields = append(fields, I(int64(len(sched))))
+		for _, t := range sched {
+			fields = append(fields, I(int64(t)))
+		}
+		for _, t := range trace {
+			fields = append(fields, U(t[0]), U(t[1]))
+		}
+		for i := range progs {
+			fields = append(fields, I(int64(len(res[i]))))
+			fields = append(fields, res[i]...)
+		}
+		fields = append(fields, H(final))
+		out.Note("race-" + kind + "-writers-" + strconv.Itoa(w))
+		out.Note("race-preemptions-" + strconv.Itoa(len(plan)))
+		out.Case(true, fields...)
+	}
+}
+
+// caseRaceCreate: writers starting on a file that is absent / empty /
+// header-only, short programs on names that stay within the first page.
+func caseRaceCreate(w, maxRuns, maxCases int) {
 	meta := fmtgen.Meta(rnd)
-	w := 2 + idx%2
 	var init []byte
 	switch rnd.Intn(5) {
 	case 0:
@@ -634,62 +708,66 @@ func caseRace(idx int) {
 			progs[i] = append(progs[i], raceOp{add: rnd.Chance(70), name: name, delta: uint64(1 + rnd.Intn(1000))})
 		}
 	}
-	steps := 7 * w
-	var plans [][][2]int
-	plans = append(plans, nil)
-	for g := 1; g < steps; g++ {
-		for t := 0; t < w; t++ {
-			plans = append(plans, [][2]int{{g, t}})
-			for g2 := g + 1; g2 < steps; g2++ {
-				for t2 := 0; t2 < w; t2++ {
-					if t2 != t {
-						plans = append(plans, [][2]int{{g, t}, {g2, t2}})
-					}
-				}
-			}
-		}
+	raceScenario("create", meta, init, progs, 7*w, maxRuns, maxCases)
+}
+
+// caseRaceGrow: the file exists and its last page is nearly full; the writers
+// race on the SAME new name whose record needs a new page (so that newCounter
+// parks inside extend while another writer links that name), then allocate
+// further records of different sizes.
+func caseRaceGrow(w, maxRuns, maxCases int) {
+	meta := fmtgen.Meta(rnd)
+	dir, err := os.MkdirTemp(root, "g")
+	must(err)
+	defer os.RemoveAll(dir)
+	path := filepath.Join(dir, "c.v1.count")
+	s := &session{path: path, meta: meta}
+	if !s.open() {
+		panic("cannot create the file of a race scenario")
 	}
-	limit := len(plans)
-	if w > 2 && os.Getenv("VERIF_TIER") != "thorough" {
-		limit = 400
+	for s.growName() == "" {
+		_, _, cur, err := s.m.NewCounter(fmtgen.NameOfLen(rnd, 3700+rnd.Intn(390)))
+		must(err)
+		s.m = cur
 	}
-	seen := map[string]bool{}
-	for pi, plan := range plans {
-		if limit < len(plans) && pi > 40 && rnd.Intn(len(plans)) >= limit {
-			continue
+	if rnd.Chance(40) {
+		// a second page already in use
+		_, _, cur, err := s.m.NewCounter(s.growName())
+		must(err)
+		s.m = cur
+		for s.growName() == "" {
+			_, _, cur, err := s.m.NewCounter(fmtgen.NameOfLen(rnd, 3700+rnd.Intn(390)))
+			must(err)
+			s.m = cur
 		}
-		sched, res, final := runRace(meta, init, progs, plan)
-		key := fmt.Sprint(sched)
-		if seen[key] {
-			continue
-		}
-		seen[key] = true
-		fields := []string{"race", HS(meta)}
-		if init == nil {
-			fields = append(fields, "absent", "h")
+		out.Note("race-grow-two-pages")
+	}
+	contended := s.growName()
+	if len(contended) < 4096 && rnd.Bool() {
+		contended = fmtgen.NameOfLen(rnd, len(contended)+rnd.Intn(4097-len(contended)))
+	}
+	s.close()
+	init, err := os.ReadFile(path)
+	must(err)
+	small := func(i int) raceOp {
+		return raceOp{add: rnd.Chance(80), name: fmtgen.NameOfLen(rnd, Pick(rnd, []int{1, 1, 2, 5, 16, 17, 40, 100, 300})) + strconv.Itoa(i), delta: uint64(1 + rnd.Intn(1000))}
+	}
+	progs := make([][]raceOp, w)
+	for i := range progs {
+		if i < 2 || rnd.Chance(50) {
+			progs[i] = append(progs[i], raceOp{add: rnd.Chance(70), name: contended, delta: uint64(1 + rnd.Intn(1000))})
 		} else {
-			fields = append(fields, "present", H(init))
+			progs[i] = append(progs[i], raceOp{add: true, name: fmtgen.NameOfLen(rnd, 3000+rnd.Intn(1000)), delta: 1})
 		}
-		fields = append(fields, I(int64(w)))
-		for i := range progs {
-			fields = append(fields, I(int64(len(progs[i]))))
-			for _, o := range progs[i] {
-				fields = append(fields, B(o.add), HS(o.name), U(o.delta))
-			}
+		for j, k := 0, rnd.Intn(4); j < k; j++ {
+			progs[i] = append(progs[i], small(i*10+j))
 		}
-		fields = append(fields, I(int64(len(sched))))
-		for _, t := range sched {
-			fields = append(fields, I(int64(t)))
+		if rnd.Chance(20) {
+			// a small name first: the contended one is not the first operation
+			progs[i] = append([]raceOp{small(i*10 + 9)}, progs[i]...)
 		}
-		for i := range progs {
-			fields = append(fields, I(int64(len(res[i]))))
-			fields = append(fields, res[i]...)
-		}
-		fields = append(fields, H(final))
-		out.Note("race-writers-" + strconv.Itoa(w))
-		out.Note("race-preemptions-" + strconv.Itoa(len(plan)))
-		out.Case(true, fields...)
 	}
+	raceScenario("grow", meta, init, progs, 12*w, maxRuns, maxCases)
 }
 
 func main() {
@@ -707,15 +785,17 @@ func main() {
 	if os.Getenv("VERIF_TIER") == "thorough" {
 		maxPages = 12
 	}
-	races := 2
 	if os.Getenv("VERIF_TIER") == "thorough" {
-		races = 12
-	}
-	if n < 50 {
-		races = 1
-	}
-	for i := 0; i < races; i++ {
-		caseRace(i)
+		for i := 0; i < 4; i++ {
+			caseRaceCreate(2+i%2, 1<<30, 1<<30)
+			caseRaceGrow(2, 1<<30, 1<<30)
+			caseRaceGrow(3, 3000, 600)
+		}
+	} else if n >= 50 {
+		caseRaceCreate(2, 1<<30, 60)
+		caseRaceCreate(3, 300, 40)
+		caseRaceGrow(2, 900, 90)
+		caseRaceGrow(2, 900, 60)
 	}
 	for i := 0; i < n; i++ {
 		switch k := rnd.Intn(100); {
